@@ -60,8 +60,9 @@ type Unit struct {
 	externalCalls   map[string]bool
 	specErrors      []string
 	deferList       []*ast.CallExpr
-	goScan          int            // 0 not scanned, 1 no go statement, 2 has go statement
-	spawned         []func(*State) // re-havoc of the modifies targets of spawned goroutines (see resync)
+	closureWritten  map[*types.Var]bool // locals assigned inside escaping closures (havoced at calls / sync points)
+	goScan          int                 // 0 not scanned, 1 no go statement, 2 has go statement
+	spawned         []func(*State)      // re-havoc of the modifies targets of spawned goroutines (see resync)
 	deferGuards     []int
 	retCount        int
 	endPos          token.Pos
